@@ -1,4 +1,87 @@
 package prove
 
-// Read-only access for the /verif harness (go build -overlay only).
+import (
+	"sync/atomic"
+	"unsafe"
+
+	"github.com/nelhage/taktician/tak"
+)
+
+// Read-only access for the /verif harness. Compiled in only through
+// `go build -overlay`; not part of the repository.
+
+// VerifEntrySize is the divisor NewDFPN uses to turn TableMem into a number of entries.
+func VerifEntrySize() int64 { return int64(unsafe.Sizeof(entry{})) }
+
+// VerifTableLen is the number of entries of the solver's table.
+func (d *DFPNSolver) VerifTableLen() int { return len(d.table.entries) }
+
+// VerifConsts: the constants of the package the Lean model takes from Generated/FactsProve.lean.
+func VerifConsts() (infinity uint32, checkFreq, pn2thr int, eps float64) {
+	return INFINITY, kCheckFrequency, pn2Threshold, epsilon
+}
+
+// VerifAbort stops a runaway Prove (the solver has no limit or cancellation of its own): the length
+// word of the table slice is set to zero (one aligned word, so the solver's goroutine sees either the
+// old or the new length, never a torn slice header), and the solver's next table access panics with a
+// division by zero or an index out of range in its own goroutine, where the harness recovers.
+// Only used on runs whose result is discarded.
+func (d *DFPNSolver) VerifAbort() {
+	type sliceHeader struct {
+		data unsafe.Pointer
+		len  int
+		cap  int
+	}
+	h := (*sliceHeader)(unsafe.Pointer(&d.table.entries))
+	atomic.StoreInt64((*int64)(unsafe.Pointer(&h.len)), 0)
+}
+
+// VerifEntry is one occupied table slot: position hash and the bounds stored for it.
+type VerifEntry struct {
+	Hash       uint64
+	Phi, Delta uint32
+	Work       uint64
+}
+
+// VerifTable lists the occupied slots of the solver's table.
+func (d *DFPNSolver) VerifTable() []VerifEntry {
+	var out []VerifEntry
+	for _, e := range d.table.entries {
+		if e.hash != 0 || e.bounds.phi != 0 || e.bounds.delta != 0 {
+			out = append(out, VerifEntry{e.hash, e.bounds.phi, e.bounds.delta, e.work})
+		}
+	}
+	return out
+}
+
+// VerifAttacker is the attacker the solver settled on.
+func (d *DFPNSolver) VerifAttacker() tak.Color { return d.attacker }
+
 func VerifSaturatingAdd(l, r uint32) uint32 { return saturatingAdd(l, r) }
+
+// VerifSnap is everything a DFPNSolver carries from one Prove to the next.
+type VerifSnap struct {
+	attacker tak.Color
+	entries  []entry
+	killers  []tak.Move
+	pool     positionPool
+}
+
+// VerifSnapshot / VerifRestore let the harness probe "does Prove come back on this position" on a solver
+// that is in use, and put the solver back exactly as it was.
+func (d *DFPNSolver) VerifSnapshot() *VerifSnap {
+	return &VerifSnap{
+		attacker: d.attacker,
+		entries:  append([]entry(nil), d.table.entries...),
+		killers:  append([]tak.Move(nil), d.killers...),
+		pool:     d.pool,
+	}
+}
+
+func (d *DFPNSolver) VerifRestore(s *VerifSnap) {
+	d.attacker = s.attacker
+	copy(d.table.entries, s.entries)
+	d.killers = append([]tak.Move(nil), s.killers...)
+	d.pool = s.pool
+	d.stack = nil
+}
